@@ -29,7 +29,7 @@ warnings.simplefilter("ignore")
 
 DISP_OPS = {"ball": lambda: Ball(0.3), "box": lambda: Box(0.25), "sphere": lambda: Sphere(0.2), "translation": Translation,
             "rotation": Rotation, "translation_rotation": TranslationRotation, "ball+box": lambda: Ball(0.2) + Box(0.1)}
-CELL_OPS = {"iso": lambda: IsotropicDeformation(0.05), "aniso": lambda: AnisotropicDeformation(0.04), "shape": lambda: ShapeDeformation(0.04)}
+CELL_OPS = {"iso": lambda a=0.05: IsotropicDeformation(a), "aniso": lambda a=0.04: AnisotropicDeformation(a), "shape": lambda a=0.04: ShapeDeformation(a)}
 
 
 def h(b: bytes) -> str:
@@ -160,7 +160,7 @@ class Sim:
             elif k == "exch":
                 mv = ExchangeMove(np.array(lf["labels"]), DISP_OPS[lf.get("op", "translation")](), bias_towards_insert=lf.get("bias", 0.5))
             elif k == "cell":
-                mv = CellMove(CELL_OPS[lf["op"]](), scale_atoms=lf.get("scale_atoms", True))
+                mv = CellMove(CELL_OPS[lf["op"]](*([lf["amp"]] if lf.get("amp") else [])), scale_atoms=lf.get("scale_atoms", True))
             else:
                 mv = HamiltonianDisplacementMove(operation=Verlet(dt=lf.get("dt", 1.0), max_steps=lf.get("n", 3)))
             if "default_label" in lf and k in ("disp", "exch"):
